@@ -2,30 +2,46 @@ package main
 
 import (
 	"fmt"
-	"strings"
+	"runtime"
+	"sync"
+	"sync/atomic"
 	"time"
 
-	"github.com/ajitpratap0/GoSQLX/pkg/gosqlx"
+	"github.com/ajitpratap0/GoSQLX/pkg/metrics"
 )
 
 func main() {
-	for _, pre := range []string{"x IN (SELECT ", "(SELECT ", "EXISTS (SELECT ", "x = ANY (SELECT ", "x IN ("} {
-		for _, n := range []int{10, 14, 18, 22, 50, 101, 400} {
-			s := "SELECT " + strings.Repeat(pre, n) + "1" + strings.Repeat(")", n)
-			t0 := time.Now()
-			_, err := gosqlx.Parse(s)
-			d := time.Since(t0)
-			e := "ok"
-			if err != nil {
-				e = err.Error()
-				if len(e) > 50 {
-					e = e[:50]
-				}
+	metrics.Enable()
+	for _, g := range []int{2, 4, 8, 16} {
+		lostMin, lostMax := 0, 0
+		const rounds = 3000
+		for r := 0; r < rounds; r++ {
+			metrics.Reset()
+			var arrived, release int32
+			var wg sync.WaitGroup
+			for i := 0; i < g; i++ {
+				wg.Add(1)
+				go func(i int) {
+					defer wg.Done()
+					atomic.AddInt32(&arrived, 1)
+					for atomic.LoadInt32(&release) == 0 {
+					}
+					metrics.RecordTokenization(time.Microsecond, 10+i, nil)
+				}(i)
 			}
-			fmt.Printf("%-18s n=%4d %10v %s\n", pre, n, d.Round(time.Microsecond), strings.ReplaceAll(e, "\n", " "))
-			if d > 5*time.Second {
-				break
+			for atomic.LoadInt32(&arrived) < int32(g) {
+				runtime.Gosched()
+			}
+			atomic.StoreInt32(&release, 1)
+			wg.Wait()
+			st := metrics.GetStats()
+			if st.MinQuerySize != 10 {
+				lostMin++
+			}
+			if st.MaxQuerySize != int64(10+g-1) {
+				lostMax++
 			}
 		}
+		fmt.Printf("g=%d rounds=%d lostMin=%d lostMax=%d\n", g, rounds, lostMin, lostMax)
 	}
 }
